@@ -61,6 +61,49 @@ func (s *Store) AwaitSrcFor(from int, m string, d time.Duration) bool {
 	}
 }
 
+// WhatSyncOrder is the ordering oracle (it needs no crash): the epochs and offsets that
+// NotifySyncCompleted exposes to the next state file are durable only if the device's Sync()
+// succeeded after the matching NotifySyncStarting.
+const WhatSyncOrder = "a failed data sync was treated as completed: NotifySyncCompleted was not preceded by a successful Sync() issued after NotifySyncStarting"
+
+// checkOrder raises the ordering oracle if the store tripped it.
+func (r *Runner) checkOrder() bool {
+	if r.Failed || r.St == nil {
+		return false
+	}
+	if v := r.St.OrderViolation(); v != "" {
+		r.fail("oracle", WhatSyncOrder, v)
+		return true
+	}
+	return false
+}
+
+// PowerLoss is the medium after a power failure that loses every unsynchronised sector of the data
+// device and every rename not yet made durable, while the index device (which is never
+// synchronised) happens to keep its records: the most hostile admissible medium for an object
+// the state file vouches for.
+func PowerLoss(sn Snapshot) Choice {
+	c := Choice{Data: make([]bool, len(sn.DataPend)), Idx: make([]bool, len(sn.IndexPend)), Pick: 0, Power: true}
+	for i := range c.Idx {
+		c.Idx[i] = true
+	}
+	return c
+}
+
+// afterShutdown runs the read-back oracles once ProcessBlockPut has returned false: a restart from
+// the medium as the operating system holds it, and a restart after a power loss; everything the
+// store could look up when the shutdown completed has to be readable both times.
+func (r *Runner) afterShutdown() {
+	if r.checkOrder() {
+		return
+	}
+	sn := r.St.Snapshot()
+	r.Run.Count("shutdown-fork")
+	r.Fork(sn, AllKept(sn, false), true)
+	r.Run.Count("shutdown-powerloss-fork")
+	r.Fork(sn, PowerLoss(sn), true)
+}
+
 // Drained reports whether the runner gave up following the syncer step by step (see drain).
 func (r *Runner) Drained() bool { return r.drained }
 
@@ -124,9 +167,8 @@ func (r *Runner) drain(why string, stray *Event) {
 			idle = true
 		}
 	}
-	sn := r.St.Snapshot()
-	r.Run.Count("shutdown-fork (after deviation)")
-	r.Fork(sn, AllKept(sn, false), true)
+	r.Run.Count("shutdown completed after deviation")
+	r.afterShutdown()
 	if !r.Failed {
 		r.Impl = append(r.Impl, fmt.Sprintf("deviation (%s): shutdown driven to completion, read-back clean", why))
 		r.Mdl = append(r.Mdl, "-")
